@@ -15,6 +15,8 @@ import (
 )
 
 type Engine struct {
+	immGlobals map[*ssa.Global]bool
+	allFuncs   map[*ssa.Function]bool
 	fset               *token.FileSet
 	prog               *ssa.Program
 	pkgs               map[string]*ssa.Package
